@@ -25,6 +25,12 @@ def run(ctx):
 
     def a(inst):
         b = F.fn("handlers::store::handle")
+        if not b.find_calls(r"mpsc::(bounded::)?Sender::send$") and b.find_calls(r"tokio::(task::)?spawn(::spawn)?$"):
+            # the hand-over moved into a spawned task: the handler's timeout no longer bounds it
+            base = b.key.split("::{closure")[0]
+            for k in F.find("^" + re.escape(base) + r"::\{closure#0\}::\{closure#\d+\}"):
+                if F.fn_exact(k).find_calls(r"mpsc::(bounded::)?Sender::send$"):
+                    return [("send-detached", "the event is handed to the shard from a task detached with tokio::spawn (%s): when the handler's timeout fires the client is told the STORE failed, and the event is stored afterwards all the same" % k.split("::")[-1], None)]
         send = one(b, r"mpsc::(bounded::)?Sender::send$")
         bad = []
         empt = calls(b, r"str::is_empty$", 2)
@@ -151,18 +157,59 @@ def run(ctx):
     def define(name):
         def f(inst):
             b = F.fn(name)
-            ck = one(b, r"HashMap::contains_key$")
             app = one(b, r"SchemaStore::append$|store::SchemaStore::append$") if b.find_calls(r"SchemaStore::append$") else None
-            reg = one(b, r"SchemaRegistry::register_record$")
+            regs = b.find_calls(r"SchemaRegistry::register_record$")
+            reg_in = None
+            if not regs:
+                # registration delegated to a helper: the helper's call site is where the schema becomes visible
+                for c_ in b.calls:
+                    if not c_.cleanup and c_.callee and F.has(c_.callee) and F.fn_exact(c_.callee).find_calls(r"SchemaRegistry::register_record$"):
+                        regs, reg_in = [c_], F.fn_exact(c_.callee)
+                        break
+            if len(regs) != 1:
+                raise AnchorMissing("one site where %s registers the record (register_record, directly or through a helper), found %d" % (name, len(regs)))
+            reg = regs[0]
             bad = []
-            fe = bool_result_edge(b, ck, False)
-            L = b.origins(ck.args[0])
+            same_helper = False
+            # the existence test: in the function itself, or in a validation helper whose every
+            # Ok return is dominated by the "not yet defined" edge (then the helper's `?` is the gate)
+            cks = b.find_calls(r"HashMap::contains_key$")
+            if len(cks) == 1:
+                ck, hb = cks[0], b
+                fe = bool_result_edge(b, ck, False)
+            elif not cks:
+                fe, ck, hb = [], None, None
+                for c_ in b.calls:
+                    if c_.cleanup or not c_.callee or not F.has(c_.callee):
+                        continue
+                    h = F.fn_exact(c_.callee)
+                    hk = h.find_calls(r"HashMap::contains_key$")
+                    if len(hk) != 1:
+                        continue
+                    hfe = bool_result_edge(h, hk[0], False)
+                    oks = [bb for (bb, j, v, d_) in h.aggregates("result::Result", "Ok") if d_ == [0]]
+                    if not oks or not all(any(h.dominates_edge(e, o) for e in hfe) for o in oks):
+                        bad.append(("helper-accepts-existing", "%s can return Ok for an event type that already exists" % c_.nname, None))
+                    ck, hb = hk[0], h
+                    fe = [e for (e, v) in ok_edges(b, c_) if v == "Continue"]
+                    if reg_in is not None and reg_in.key == h.key:
+                        # test and registration sit in the same helper: order them there
+                        hr = one(h, r"SchemaRegistry::register_record$")
+                        if not any(h.dominates_edge(e, hr.bb) for e in hfe):
+                            bad.append(("redefine", "register_record reachable for an event type that already exists (in %s)" % c_.nname, None))
+                        same_helper = True
+                    break
+                if ck is None:
+                    raise AnchorMissing("existence test (HashMap::contains_key) in %s or a helper it calls" % name)
+            else:
+                raise AnchorMissing("one existence test in %s, found %d" % (name, len(cks)))
+            L = hb.origins(ck.args[0])
             if not has_origin(L, None, proj_contains=[".schemas"]):
                 bad.append(("exists-test-other-map", "existence test is not on self.schemas (%s)" % fmt_leaves(L), None))
-            if not any(b.dominates_edge(e, reg.bb) for e in fe):
+            if not same_helper and not any(b.dominates_edge(e, reg.bb) for e in fe):
                 bad.append(("redefine", "register_record reachable for an event type that already exists", None))
             if app is not None:
-                inst.sites = [sp(b, ck.bb), sp(b, app.bb), sp(b, reg.bb)]
+                inst.sites = [sp(hb, ck.bb), sp(b, app.bb), sp(b, reg.bb)]
                 if not any(b.dominates_edge(e, app.bb) for e in fe):
                     bad.append(("append-on-redefine", "schema store append reachable for an existing event type", None))
                 es = [e for (e, v) in ok_edges(b, app) if v == "Continue"]
@@ -171,7 +218,7 @@ def run(ctx):
             else:
                 # define_async: append runs inside spawn_blocking closure; the double `?` on the join result guards register
                 sb = one(b, r"tokio::task::spawn_blocking$|tokio::task::blocking::spawn_blocking$")
-                inst.sites = [sp(b, ck.bb), sp(b, sb.bb), sp(b, reg.bb)]
+                inst.sites = [sp(hb, ck.bb), sp(b, sb.bb), sp(b, reg.bb)]
                 if not any(b.dominates_edge(e, sb.bb) for e in fe):
                     bad.append(("append-on-redefine", "schema store append reachable for an existing event type", None))
                 es = [e for (e, v) in ok_edges(b, sb) if v == "Continue"]
